@@ -21,7 +21,7 @@ import (
 func init() {
 	h.Register(&h.Prop{
 		ID:   "C05",
-		Rule: "adv: n in 3..5, one Byzantine member; fault catalogue (bad share, equivocating commitments with and without cross-wired session ids, T in {0,1,n+1,2^32-1} bound/unbound, self-consistent deals of threshold 0,1,2,n+1,2n (exactly T commitments, fitting share and session id), wrong index (small, out of range, equal to the own index modulo 2^32), other-length commitments, missing share/value, raw session id, junk / missing / redirected / previous-session deal, slot pre-emption under an honest or out-of-range index; response with bad / missing / foreign signature, foreign or previous session id, complaint about an honest dealer or about the recipient's own deal, relabelled or previous-session genuine response, missing response, out-of-range responder) injected at every position of the honest delivery sequence (all in thorough and for n=3,4 in quick; sampled for n=5 in quick), pairs of faults in thorough (n = 3: every pair sampled 1/8 per seed, n = 4, 5: 500 / 300 random pairs); non-trivial = every case (each has at least one adversarial message); distinct = distinct case line",
+		Rule: "adv: n in 3..5, one Byzantine member; fault catalogue (bad share, equivocating commitments with and without cross-wired session ids, T in {0,1,n+1,2^32-1} bound/unbound, self-consistent deals of threshold 0,1,2,n+1,2n (exactly T commitments, fitting share and session id), wrong index (small, out of range, equal to the own index modulo 2^32), other-length commitments, missing share/value, raw session id, junk / missing / redirected / previous-session deal, slot pre-emption under an honest or out-of-range index; forged PublicKey messages (another member's / the own / an out-of-range index, outsider as sender, the adversary's own key twice), three Byzantine seats sharing one key with re-labelled approvals; response with bad / missing / foreign signature, foreign or previous session id, complaint about an honest dealer or about the recipient's own deal, relabelled or previous-session genuine response, missing response, out-of-range responder) injected at every position of the honest delivery sequence (all in thorough and for n=3,4 in quick; sampled for n=5 in quick), pairs of faults in thorough (n = 3: every pair sampled 1/8 per seed, n = 4, 5: 500 / 300 random pairs); non-trivial = every case (each has at least one adversarial message); distinct = distinct case line",
 		Gen:  gen,
 		Exec: exec,
 	})
@@ -63,6 +63,11 @@ func exec(line string) (res h.Result) {
 	res.Oracle = dkgnet.JointOracle(members, houts, s.T, nil, nil, h.NewRng(1))
 	if res.Oracle != "" {
 		return
+	}
+	for _, k := range members {
+		if res.Oracle = s.KeyOracle(k); res.Oracle != "" {
+			return
+		}
 	}
 	for _, k := range members {
 		ap := s.ApprovedBy(k)
@@ -287,6 +292,105 @@ func instances(n, b int) []injection {
 	return all
 }
 
+// forgedKeys: the Byzantine member b announces, to every honest member, a key of its own under the index
+// of another honest member, before that member's key arrives (n = 3: the split this allowed on the pinned
+// tree is in corpus/C05); variants with the victim's own index, an out-of-range index, an outsider as sender.
+func forgedKeys(seed func() uint64, n, b int, emit func(string)) {
+	ev := canonical(n)
+	var hon []int
+	for k := 0; k < n; k++ {
+		if k != b {
+			hon = append(hon, k)
+		}
+	}
+	for _, variant := range []string{"other", "own", "oob", "outsider", "bkey"} {
+		var defs, out []string
+		id := 0
+		for _, e := range ev {
+			if e[0] == 'p' {
+				p := strings.Split(e[1:], ".")
+				j, i := h.Atoi(p[0]), h.Atoi(p[1])
+				if i != b && j != b && j == hon[(indexOf(hon, i)+1)%len(hon)] {
+					spec := ""
+					switch variant {
+					case "other":
+						spec = fmt.Sprintf("K.%d.%d.x%d", j, b, i)
+					case "own":
+						spec = fmt.Sprintf("K.%d.%d.x%d", i, b, i)
+					case "oob":
+						spec = fmt.Sprintf("K.%d.%d.x%d", n+1, b, i)
+					case "outsider":
+						spec = fmt.Sprintf("K.%d.%d.x%d", j, n+5, i)
+					case "bkey":
+						spec = fmt.Sprintf("K.%d.%d.%d", j, b, b)
+					}
+					defs = append(defs, fmt.Sprintf("X%d=%s", id, spec))
+					out = append(out, fmt.Sprintf("x%d.%d", id, i))
+					id++
+				}
+			}
+			out = append(out, e)
+		}
+		emit(fmt.Sprintf("adv %d %d %s %s %d", seed(), n, strings.Join(defs, ";"), strings.Join(out, ","), b))
+	}
+}
+
+func indexOf(l []int, x int) int {
+	for k, y := range l {
+		if y == x {
+			return k
+		}
+	}
+	return 0
+}
+
+// dupKeys: n = 5, the three Byzantine seats 2, 3, 4 announce ONE key. Session ids name a dealer by its key,
+// so an approval for one of these seats can be re-labelled for another: member 0 is dealt (P, P, Q) under
+// (2, 3, 4), member 1 (P, Q, Q); each gets the other's approvals re-labelled to fit.
+func dupKeys(seed func() uint64, emit func(string)) {
+	defs := []string{"DUP=2.3.4"}
+	var out []string
+	id := 0
+	x := func(spec string, to int) {
+		defs = append(defs, fmt.Sprintf("X%d=%s", id, spec))
+		out = append(out, fmt.Sprintf("x%d.%d", id, to))
+		id++
+	}
+	polys := map[int][3]int{0: {40, 40, 41}, 1: {40, 41, 41}} // polynomial dealt under seats 2,3,4
+	out = append(out, "s0", "s1", "p1.0", "p0.1")
+	for _, i := range []int{0, 1} {
+		for _, k := range []int{2, 3, 4} {
+			x(fmt.Sprintf("K.%d.%d.%d", k, k, k), i)
+		}
+	}
+	out = append(out, "d1.0", "d0.1")
+	for _, i := range []int{0, 1} {
+		for q, k := range []int{2, 3, 4} {
+			x(fmt.Sprintf("D.%d.2.%d.good%d", k, i, polys[i][q]), i)
+		}
+	}
+	// the other honest member's approvals, re-labelled where the polynomials differ
+	x("GR.1.2.3", 0) // member 1 approved P under seat 2: member 0 needs an approval of P under seat 3
+	out = append(out, "r1.0")
+	x("GR.0.4.3", 1) // member 0 approved Q under seat 4: member 1 needs an approval of Q under seat 3
+	out = append(out, "r0.1")
+	for _, i := range []int{0, 1} {
+		for _, k := range []int{2, 3, 4} {
+			for j := 0; j < 5; j++ {
+				if j == k {
+					continue
+				}
+				sid := fmt.Sprintf("cur%d", j)
+				if j >= 2 {
+					sid = fmt.Sprintf("p2_%d", polys[i][j-2])
+				}
+				x(fmt.Sprintf("R.%d.%d.%s.a.2", j, k, sid), i)
+			}
+		}
+	}
+	emit(fmt.Sprintf("adv %d 5 %s %s 2", seed(), strings.Join(defs, ";"), strings.Join(out, ",")))
+}
+
 func gen(tier string, rng *h.Rng, emit func(string)) {
 	thorough := tier == "thorough"
 	seed := func() uint64 { return rng.U64() >> 1 }
@@ -298,6 +402,10 @@ func gen(tier string, rng *h.Rng, emit func(string)) {
 		for _, b := range bs {
 			// 0. no fault at all (b behaves)
 			emit(build(seed(), n, b, nil))
+			forgedKeys(seed, n, b, emit)
+			if n == 5 {
+				dupKeys(seed, emit)
+			}
 			// 1. single faults at every position
 			inst := instances(n, b)
 			for _, in := range inst {
